@@ -261,7 +261,7 @@ func maintainBulkCache() {
 	if err := syscall.Statfs(VerifRoot, &st); err == nil {
 		low = st.Bavail*uint64(st.Bsize) < 60<<30
 	}
-	if n >= 3 || low {
+	if n >= 4 || low {
 		_ = os.RemoveAll(BulkCache)
 		n = 0
 	}
@@ -274,6 +274,30 @@ func maintainBulkCache() {
 	}
 	_ = os.MkdirAll(BulkCache, 0o755)
 	_ = os.WriteFile(uses, []byte(fmt.Sprint(n+1)), 0o644)
+}
+
+// CLICache is the build cache handed to the generator CLI (its package loader compiles export data for every
+// package it loads). It is private to the process; ResetCLICache empties it, CleanupCLICache removes it.
+func CLICache() string {
+	return filepath.Join(VerifRoot, "work", fmt.Sprintf("clicache-%d", os.Getpid()))
+}
+
+
+// ResetCLICache empties the CLI cache. Callers make sure no CLI run is in flight.
+func ResetCLICache() { _ = os.RemoveAll(CLICache()) }
+
+// CleanupCLICache removes this process's CLI cache and those of processes that are gone.
+func CleanupCLICache() {
+	_ = os.RemoveAll(CLICache())
+	ents, _ := os.ReadDir(filepath.Join(VerifRoot, "work"))
+	for _, e := range ents {
+		var pid int
+		if n, _ := fmt.Sscanf(e.Name(), "clicache-%d", &pid); n == 1 && pid != os.Getpid() {
+			if err := syscall.Kill(pid, 0); err != nil {
+				_ = os.RemoveAll(filepath.Join(VerifRoot, "work", e.Name()))
+			}
+		}
+	}
 }
 
 // BulkGoEnv is GoEnv with the bulk build cache.
